@@ -281,7 +281,11 @@ func buildImage(kind string, tree []imgEntry, start int64, opt map[string]int64)
 			if err := os.Mkdir(filepath.Join(dir, "IDX"), 0o755); err != nil {
 				return nil, err
 			}
-			for i := 0; i < 160; i++ {
+			nidx := 60 // three 1 KiB blocks of entries: enough for an index, cheap to walk
+			if opt["bs"] == 4096 {
+				nidx = 100
+			}
+			for i := 0; i < nidx; i++ {
 				if err := os.WriteFile(filepath.Join(dir, "IDX", fmt.Sprintf("entry-with-a-long-name-%04d.dat", i)), []byte{byte(i)}, 0o644); err != nil {
 					return nil, err
 				}
